@@ -41,20 +41,23 @@ from harness import c11_build as B
 
 ID = "C11"
 LEVEL = "fault_enumeration"
-RULE = ("A: all line sequences of length <= L over 10 line tokens x 14 (provider kind, save-as) combinations "
+RULE = ("A: all line sequences of length <= L over 11 line tokens x 14 (provider kind, save-as) combinations "
         "(raw files and really executed commands: length <= 2), plus all arrangements without repetition of "
         "1..M element tokens (one of them with empty content, i.e. failing at serialisation) x 13 multi-output "
         "(kind, save-as) combinations x {serial, thread pool}, plus failed components; ~50 generated specs share one archive, "
         "every violating spec is re-executed alone in its own archive before it is reported. Non-trivial = at least one "
         "result was persisted AND loaded back (failed component: its document carries >= 1 error). "
-        "B: every subset of the 3 metadata entries x every corruption kind; truncation at every byte offset "
-        "(quick: every 7th + first/last 16). Non-trivial = the corruption changed the archive (a metadata or data file).")
+        "B: every subset of the 3 metadata entries x every corruption kind x every order (6) in which hydrate meets the "
+        "entries (directory iteration order is owned at os.scandir/os.listdir and recorded in the case); truncation at every "
+        "byte offset (quick: every 7th + first/last 16). Non-trivial = the corruption changed the archive (a metadata or data file).")
 ASSUMPTIONS = [
     "command output is supplied by a recording HostContext.check_output (the command is not executed), except for the "
     "cmd_real kind which really runs /bin/cat; container engines are spelled /usr/bin/env because podman/docker do not exist here",
     "no cleaner, no filters, no deny list are configured (C06-C10 cover those)",
     "the host context is seeded into the hydrated broker before the second dr.run so that a loaded implementation could "
     "execute if the engine tried to (otherwise that clause would be vacuous)",
+    "directory iteration order of meta_data/ is imposed by wrapping os.scandir/os.listdir for that one directory while the "
+    "archive is loaded (part A: name order; part B: the order given in the case); the wrapper returns a permutation of the real listing",
     "part B rewrites exec_time/ser_time of the three metadata documents to constants with the same json.dump call "
     "dehydrate uses, so that byte offsets are reproducible",
     "bounded: no counterexample within the stated alphabet and lengths, nothing more",
@@ -123,21 +126,22 @@ def units(tier, seed):
     L = BOUNDS[tier]["max_lines"]
     us = []
     for kind, mode in SWEEP:
-        us.append({"part": "A", "sub": "sweep", "kind": kind, "save_as": mode, "len": 2, "first": None})
-        for n in range(3, L + 1):
-            for t in B.TOKENS:
-                us.append({"part": "A", "sub": "sweep", "kind": kind, "save_as": mode, "len": n, "first": t})
+        us.append({"part": "A", "sub": "sweep", "kind": kind, "save_as": mode, "len": L - 1, "first": None})
+        for t in B.TOKENS:
+            us.append({"part": "A", "sub": "sweep", "kind": kind, "save_as": mode, "len": L, "first": t})
     for kind, mode in SHORT:
         us.append({"part": "A", "sub": "sweep", "kind": kind, "save_as": mode, "len": BOUNDS[tier]["raw_max_lines"], "first": None})
     for kind, mode in MULTI:
         for pool in (False, True):
             us.append({"part": "A", "sub": "order", "kind": kind, "save_as": mode, "pool": pool})
     us.append({"part": "A", "sub": "fail"})
-    us.append({"part": "B", "sub": "kinds"})
+    for subset in enumx.subsets(range(3)):
+        us.append({"part": "B", "sub": "kinds", "subset": list(subset)})
     lens = template_lengths()
+    per = 40 if tier == "quick" else 100
     for subset in enumx.subsets(range(3), min_size=1):
         offs = truncate_offsets(tier, subset, lens)
-        for chunk in enumx.chunks(offs, max(1, (len(offs) + 149) // 150)):
+        for chunk in enumx.chunks(offs, max(1, (len(offs) + per - 1) // per)):
             us.append({"part": "B", "sub": "truncate", "subset": list(subset), "offsets": chunk, "lens": lens})
     return us
 
@@ -404,23 +408,26 @@ def run_unit(unit, tier):
             res.samples.append(specs[len(specs) // 2])
         return res
     if unit["sub"] == "kinds":
-        cases = [{"part": "B", "subset": [], "corruption": "none"}]
-        for subset in enumx.subsets(range(3), min_size=1):
-            for kind in CORRUPTIONS:
-                cases.append({"part": "B", "subset": list(subset), "corruption": kind})
+        if not unit["subset"]:
+            cases = [{"part": "B", "subset": [], "corruption": "none", "order": list(o)} for o in ORDERS]
+        else:
+            cases = [{"part": "B", "subset": unit["subset"], "corruption": kind, "order": list(o)}
+                     for kind in CORRUPTIONS for o in ORDERS]
     else:
-        cases = [{"part": "B", "subset": unit["subset"], "corruption": "truncate", "offset": k} for k in unit["offsets"]]
+        cases = [{"part": "B", "subset": unit["subset"], "corruption": "truncate", "offset": k, "order": list(o)}
+                 for k in unit["offsets"] for o in ORDERS]
     for case, (v, info) in zip(cases, check_b(cases)):
         if unit["sub"] == "truncate" and info["lens"] != unit["lens"]:
             # the offsets were enumerated from the lengths measured in the parent: they must be reproducible
             raise RuntimeError("C11 harness: metadata document lengths are not reproducible: %r vs %r" % (info["lens"], unit["lens"]))
         res.case(nontrivial=info["changed"],
-                 outcome="B:%s:%s:loaded=%s" % (case["corruption"], "".join(map(str, case["subset"])) or "-", info["loaded"]))
+                 outcome="B:%s:%s:first=%s:loaded=%s" % (case["corruption"], "".join(map(str, case["subset"])) or "-",
+                                                          case["order"][0], info["loaded"]))
         res.stat("B_entries_corrupted", len(case["subset"]))
         res.stat("B_uncorrupted_entries_checked", info["checked"])
         for c, x, o, f in v:
             res.violation(c, case, x, o, f)
-    if unit["sub"] == "kinds" or unit["offsets"][0] == 0:
+    if (unit["sub"] == "kinds" and len(unit["subset"]) == 2) or (unit["sub"] == "truncate" and unit["offsets"][0] == 0):
         res.samples.append(cases[len(cases) // 2])
     return res
 
@@ -435,6 +442,7 @@ B_SPECS = [
 ]
 CORRUPTIONS = ["delete", "nonjson", "shape_list", "shape_obj", "shape_null", "shape_no_results", "shape_results_scalar",
                "unknown_name", "unknown_type", "data_deleted", "meta_is_dir", "binary", "dangling_symlink", "stray_file"]
+ORDERS = list(itertools.permutations(range(3)))     # every order in which hydrate can meet the three entries
 NOT_CORRUPTING = ("stray_file",)      # adds an unknown entry next to the selected ones; the selected entries stay intact
 for _b in BOUNDS.values():
     _b["corruption_kinds"] = ["truncate"] + CORRUPTIONS
@@ -561,7 +569,8 @@ def check_b(cases):
             errs = [_errors_expected(b.host_broker, p) for p in b.points]
             lens = [os.path.getsize(B.meta_path(b, i)) if b.docs[i] is not None else 0 for i in range(len(B_SPECS))]
             for n, case in enumerate(cases):
-                feats = {"corruption": case["corruption"], "entries_corrupted": len(case["subset"])}
+                feats = {"corruption": case["corruption"], "entries_corrupted": len(case["subset"]),
+                         "first_listed_entry_corrupted": bool(case.get("order")) and case["order"][0] in case["subset"]}
                 v = []
                 info = {"changed": False, "loaded": "", "checked": 0, "lens": lens}
                 out = os.path.join(top, "c%05d" % n)
@@ -569,7 +578,7 @@ def check_b(cases):
                 try:
                     info["changed"] = corrupt(b, out, case)
                     try:
-                        ctx, broker = B.load(b, out)
+                        ctx, broker = B.load(b, out, order=case.get("order"))
                     except Exception as ex:
                         v.append(("corruption:hydrate-raises", "no exception", repr(ex)[:300], feats))
                         outl.append((v, info))
@@ -597,7 +606,7 @@ def check_b(cases):
 TECHNIQUE = ("bounded exhaustive enumeration of contents x provider kinds x save-as x element orders through a real collection + "
              "persist + load cycle, and of every corruption kind (truncation at every byte offset) x every subset of metadata entries")
 LEVEL_TEXT = ("Every line sequence up to the bound over an alphabet with one token per reader/writer shortcut (empty, edge blanks, tab, "
-              "2/3/4-byte UTF-8, form feed, a 70 000-character line) is collected, persisted by the real Hydration persister and loaded "
+              "2/3/4-byte UTF-8, form feed, a leading U+FEFF, a 70 000-character line) is collected, persisted by the real Hydration persister and loaded "
               "back by the real archive initialisation for every provider kind and save-as mode; multi-output order is decided over all "
               "arrangements; fault tolerance is decided by applying every corruption kind to every subset of entries. "
               "fault_enumeration is the right level: the claim is about a finite family of faults and a data round trip, there is no "
